@@ -710,5 +710,61 @@ theorem step_inv {w : World} (h : WInv w) (op : Op) : WInv (step w op).1 := by
     · cases hw'
       obtain ⟨t, ht⟩ := h
       exact ⟨t, foldl_mutateAt_inv _ _ _ ht⟩
+  | items r sel => exact withRef_inv h (fun _ => h)
+  | count r => exact withRef_inv h (fun _ => h)
+
+/-! ### `_transform_inplace` moves every group once -/
+
+theorem mutateAt_self (w : World) (a : Nat) (δ : Int) :
+    (mutateAt w a δ).store[a]? = (w.store[a]?).map (fun s => s.shift δ) := by
+  simp only [mutateAt]
+  cases hs : w.store[a]? with
+  | none => simp [hs]
+  | some s =>
+    have hlt : a < w.store.length := by
+      rcases Nat.lt_or_ge a w.store.length with hlt | hge
+      · exact hlt
+      · rw [List.getElem?_eq_none hge] at hs; cases hs
+    simp [List.getElem?_set_self hlt]
+
+theorem store_foldl_mutateAt (δ : Int) :
+    ∀ (as : List Nat) (w : World), as.Nodup → ∀ b,
+      (as.foldl (fun w a => mutateAt w a δ) w).store[b]? =
+        if b ∈ as then (w.store[b]?).map (fun s => s.shift δ) else w.store[b]? := by
+  intro as
+  induction as with
+  | nil => intro w _ b; simp
+  | cons a t ih =>
+    intro w nd b
+    simp only [List.nodup_cons] at nd
+    simp only [List.foldl_cons]
+    rw [ih (mutateAt w a δ) nd.2 b]
+    by_cases hba : b = a
+    · subst hba
+      simp [nd.1, mutateAt_self]
+    · have : b ∈ a :: t ↔ b ∈ t := by simp [hba]
+      simp only [this, mutateAt_other w a b δ hba]
+
+theorem addrs_nodup {w : World} {tags : List Tag} (h : Inv w tags) {mi : Nat} {m : Mgr}
+    (hm : w.mgrs[mi]? = some m) : m.addrs.Nodup := by
+  have hk := h.keys mi m hm
+  have ho := h.own mi m hm
+  clear hm
+  induction m with
+  | nil => simp [Mgr.addrs]
+  | cons p t ih =>
+    obtain ⟨k, a⟩ := p
+    simp only [Mgr.keys, List.map_cons, List.nodup_cons] at hk
+    simp only [Mgr.addrs, List.map_cons, List.nodup_cons]
+    refine ⟨?_, ih hk.2 (fun k' a' m' => ho k' a' (List.mem_cons_of_mem _ m'))⟩
+    intro hmem
+    simp only [List.mem_map] at hmem
+    obtain ⟨⟨k', a'⟩, hp, rfl⟩ := hmem
+    have t1 := ho k a' List.mem_cons_self
+    have t2 := ho k' a' (List.mem_cons_of_mem _ hp)
+    rw [t1] at t2
+    simp only [Option.some.injEq, Tag.grp.injEq, true_and] at t2
+    subst t2
+    exact hk.1 (by simp only [List.mem_map]; exact ⟨(k, a'), hp, rfl⟩)
 
 end MenpoModel.C06.LM
